@@ -82,9 +82,15 @@ func (m *Mutex) Unlock() {
 	simrt.Yield(site + " unlocked")
 }
 
+// RWMutex keeps the one property of sync.RWMutex that a TryLock loop loses: a writer that is
+// waiting blocks new readers ("if any goroutine calls Lock while the lock is already held by one
+// or more readers, concurrent calls to RLock will block until the writer has acquired (and
+// released) the lock").  Without it a goroutine that read-locks twice could never be caught
+// deadlocking against a writer that arrives in between.
 type RWMutex struct {
-	mu    sync.RWMutex
-	owner atomic.Int32
+	mu      sync.RWMutex
+	owner   atomic.Int32
+	writers atomic.Int32 // writers waiting for the lock
 }
 
 func (m *RWMutex) Lock() {
@@ -94,12 +100,14 @@ func (m *RWMutex) Lock() {
 	}
 	site := simrt.CallerSite(2)
 	simrt.Yield(site + " Lock?")
+	m.writers.Add(1)
 	for n := 0; !m.mu.TryLock(); n++ {
 		if n > SpinLimit {
 			stuck(site+" Lock", m.owner.Load())
 		}
 		simrt.Yield(site + " Lock-wait")
 	}
+	m.writers.Add(-1)
 	m.owner.Store(int32(simrt.Cur().ID) + 1)
 	simrt.Sitef("%s Lock!", site)
 }
@@ -123,7 +131,7 @@ func (m *RWMutex) RLock() {
 	}
 	site := simrt.CallerSite(2)
 	simrt.Yield(site + " RLock?")
-	for n := 0; !m.mu.TryRLock(); n++ {
+	for n := 0; m.writers.Load() > 0 || !m.mu.TryRLock(); n++ {
 		if n > SpinLimit {
 			stuck(site+" RLock", m.owner.Load())
 		}
